@@ -1,6 +1,7 @@
 //! vxn: native harness (bounded contract checks, counterexample search, replay) over the real library.
 mod bin;
 mod c01;
+mod c10;
 mod det;
 mod dirs;
 pub mod gen;
@@ -51,8 +52,8 @@ fn main() {
         }
     }
     let cmd = args[1].as_str();
-    let mods: [fn(&str, &[String], &str, u64) -> Option<i32>; 6] =
-        [c01::dispatch, rep::dispatch, dirs::dispatch, bin::dispatch, lines::dispatch, det::dispatch];
+    let mods: [fn(&str, &[String], &str, u64) -> Option<i32>; 7] =
+        [c01::dispatch, c10::dispatch, rep::dispatch, dirs::dispatch, bin::dispatch, lines::dispatch, det::dispatch];
     for m in mods.iter() {
         if let Some(code) = m(cmd, &rest, &tier, seed) {
             std::process::exit(code);
